@@ -92,11 +92,6 @@ pub fn on_server_message(sim: &mut Sim, c: usize, ch: usize, bytes: &[u8], id: u
             }
             for (e, comps) in &msg.changes {
                 for r in comps {
-                    if let Some(t) = sess.f20_cells.get_mut(&(*e, r.kind)) {
-                        if *t == u32::MAX {
-                            *t = msg.tick;
-                        }
-                    }
                     if r.kind == Kind::O {
                         if let Val::Ver(v) = r.val {
                             sess.o_sent.entry(*e).or_default().push((msg.tick, v));
@@ -179,17 +174,6 @@ pub fn on_server_message(sim: &mut Sim, c: usize, ch: usize, bytes: &[u8], id: u
             for r in comps {
                 if r.kind.is_entity() {
                     sess.ent_taint.insert((*e, r.kind), msg.tick);
-                }
-            }
-        }
-        // A cell hit by the tick-0 finding is trustworthy again once the client is at or beyond a tick
-        // whose message carried the component anew.
-        for (e, comps) in &msg.entities {
-            for r in comps {
-                if let Some(t) = sess.f20_cells.get_mut(&(*e, r.kind)) {
-                    if *t == u32::MAX {
-                        *t = msg.tick;
-                    }
                 }
             }
         }
@@ -637,6 +621,7 @@ pub fn after_client_frame(sim: &mut Sim, c: usize) {
     let mut conf_commit: Option<(BTreeMap<u64, BTreeSet<u32>>, BTreeSet<u64>, BTreeMap<u64, Vec<(u32, u32)>>)> = None;
     let mut sim_probe_old = 0u64;
     let mut lost_track = 0u64;
+    let mut f20_healed: Vec<(u64, Kind)> = vec![];
     let sid = sim.clients[c].sess.as_ref().unwrap().id;
     let authorized = sim.clients[c].sess.as_ref().unwrap().authorized;
     let _ = authorized;
@@ -786,7 +771,17 @@ pub fn after_client_frame(sim: &mut Sim, c: usize) {
         };
         for k in VALUE_KINDS {
             if let (Some(a), Some(b)) = (sc.get(&k), comps.get(&k)) {
-                if a != b && !sim.no_taint && sess.f20_cells.get(&(*se, k)).map(|t| *lt < *t).unwrap_or(false) {
+                let client_ver = match b {
+                    Val::Ver(v) | Val::Big(v, _) => *v,
+                    Val::Ent(_) => 0,
+                };
+                let dropped = sess.f20_cells.get(&(*se, k)).copied();
+                if dropped.map(|d| client_ver >= d).unwrap_or(false) {
+                    // The client holds the write that the tick-0 finding (F20) had dropped, or a later one.
+                    f20_healed.push((*se, k));
+                }
+                if a == b {
+                } else if !sim.no_taint && dropped.map(|d| client_ver < d).unwrap_or(false) {
                     f20_hits += 1;
                 } else if a != b {
                     if newly_applied.iter().any(|id| sess.muts[id].ents.iter().any(|(e, _)| e == se)) {
@@ -1133,6 +1128,9 @@ pub fn after_client_frame(sim: &mut Sim, c: usize) {
     }
     // ---- commit bookkeeping
     let sess = sim.clients[c].sess.as_mut().unwrap();
+    for cell in f20_healed {
+        sess.f20_cells.remove(&cell);
+    }
     if let Some((conf, pred, hist)) = conf_commit {
         sess.conf = conf;
         sess.pred = pred;
@@ -1157,6 +1155,15 @@ pub fn after_client_frame(sim: &mut Sim, c: usize) {
         }
         sim.violate(p, o, d);
     }
+}
+
+/// Known finding F20: the client still lacks the write that was dropped before the tick-0 update message.
+fn f20_exempt(sess: &Session, se: u64, k: Kind, client: &Val) -> bool {
+    let ver = match client {
+        Val::Ver(v) | Val::Big(v, _) => *v,
+        Val::Ent(_) => return false,
+    };
+    sess.f20_cells.get(&(se, k)).map(|d| ver < *d).unwrap_or(false)
 }
 
 fn link_tainted(sess: &Session, se: u64, lt: u32) -> bool {
@@ -1254,7 +1261,7 @@ pub fn end_of_run(sim: &mut Sim) {
                         let (Some(a), Some(b)) = (a, b) else { continue };
                         match k {
                             Kind::P => {
-                                if a != b && !sim.no_taint && sess.f20_cells.get(&(bits, k)).map(|t| *lt < *t).unwrap_or(false) {
+                                if a != b && !sim.no_taint && f20_exempt(sess, bits, k, b) {
                                     *sim.stats.probes.entry("known_F20_hit".into()).or_insert(0) += 1;
                                 } else if a != b {
                                     let Val::Ver(sv) = a else { continue };
@@ -1290,7 +1297,7 @@ pub fn end_of_run(sim: &mut Sim) {
                                 }
                             }
                             _ => {
-                                if a != b && !sim.no_taint && sess.f20_cells.get(&(bits, k)).map(|t| *lt < *t).unwrap_or(false) {
+                                if a != b && !sim.no_taint && f20_exempt(sess, bits, k, b) {
                                     *sim.stats.probes.entry("known_F20_hit".into()).or_insert(0) += 1;
                                 } else if a != b {
                                     v.push(("C01", "value", format!("client {c}: slot {i} {k:?} server={a:?} client={b:?} after quiescence (confirmed tick {lt})")));
